@@ -179,7 +179,13 @@ def gen_cases(rng, quick):
         else:
             grid = fd.grid(rng, m, ["uniform", "nonuniform"][kindi - 3])
             x = fd.smooth_curves(rng, n, grid) + 0.1 * rng.normal(size=(n, m))
-            yield (f"random/{['uniform', 'nonuniform'][kindi - 3]}", grid, x, mask, False)
+            label = f"random/{['uniform', 'nonuniform'][kindi - 3]}"
+            if k % 2 == 1:
+                # the same curves on a grid in small units (nanoseconds expressed in seconds): sampling points a few 1e-10 apart
+                # are different sampling points
+                grid = grid * 2.0 ** -30
+                label += "/small-units-grid"
+            yield (label, grid, x, mask, False)
 
 
 # ---------------------------------------------------------------- operations
